@@ -567,7 +567,9 @@ def train_classifier(prop):
                 # hypothesis `hcut` of bigram_matrix_close (EPSILON*32767 <= largest merged weight) can hold
                 # (kind 3 scales every weight by 1e-13 and leaves it); the dual connector is not judged, because
                 # its pre-summed part may leave 16 bits on such models (the stated caveat of C07)
-                keys = () if flags["SYNTH"] == "3" else ("CLOSE",)
+                # ... unless it cannot saturate at all (SAT=0: at most 8 templates, or (templates - 8) * largest entry fits 16
+                # bits): then dual = raw by C07's dual_eq_raw_of_fits and the dual connector is judged like the raw one
+                keys = () if flags["SYNTH"] == "3" else (("CLOSE", "CLOSED") if flags.get("SAT") == "0" else ("CLOSE",))
             for key in keys:
                 v = flags.get(key)
                 if v in (None, "na"):
@@ -592,7 +594,7 @@ def train_classifier(prop):
                     info["prop_fail"] = "feature-value-with-slash-breaks-bigram-cost"
                 elif flags.get("ZERO") == "1":
                     info["prop_fail"] = "all-zero-model-scale"
-                elif bad_keys == ["CLOSED"] and flags.get("BIG") != "0" and flags.get("DIMS") != "0":
+                elif bad_keys == ["CLOSED"] and flags.get("BIG") != "0" and flags.get("DIMS") != "0" and flags.get("SAT") != "0":
                     # the raw connector is within K+1, only the dual connector is off: its pre-summed part left 16 bits
                     # and was saturated (the stated caveat of C07; finding F28)
                     info["prop_fail"] = "dual-connector-presum-saturates-i16"
